@@ -5,9 +5,11 @@
 package vlibc11
 
 import (
+	"context"
 	"errors"
 	"fmt"
 	"io"
+	"net"
 	"regexp"
 	"runtime"
 	"strings"
@@ -139,6 +141,22 @@ func Guard(f func()) Result {
 	return r
 }
 
+// NoNetworkResolver replaces net.DefaultResolver by one that never reaches the network: every dial of a
+// name server fails at once. seen (may be nil) is told how long the attempt was allowed to take
+// (milliseconds until the deadline of the dial's context, -1 = no deadline).
+func NoNetworkResolver(seen func(remainingMs int64)) {
+	net.DefaultResolver = &net.Resolver{PreferGo: true, Dial: func(ctx context.Context, network, address string) (net.Conn, error) {
+		if seen != nil {
+			rem := int64(-1)
+			if d, ok := ctx.Deadline(); ok {
+				rem = int64(time.Until(d) / time.Millisecond)
+			}
+			seen(rem)
+		}
+		return nil, errors.New("the harness has no network")
+	}}
+}
+
 // ---------------------------------------------------------------------------------------------
 // structured generator
 
@@ -238,7 +256,9 @@ func (g *Gen) Any(preferred int) *anypb.Any {
 }
 
 var Coverts = []string{"", ":80", "1.2.3.4:1234", "1.2.3.4", "[::1]:443", "[]:80", "127.0.0.1:0", "10.0.0.1:65536", "host:99999",
-	"1.2.3.4:http", "::ffff:1.2.3.4", "[::ffff:1.2.3.4]:80", "1.2.3.4:80:80", "\x00:x", "[fe80::1%eth0]:80", "256.1.1.1:x", ":"}
+	"1.2.3.4:http", "::ffff:1.2.3.4", "[::ffff:1.2.3.4]:80", "1.2.3.4:80:80", "\x00:x", "[fe80::1%eth0]:80", "256.1.1.1:x", ":",
+	// host names: the harnesses replace net.DefaultResolver, nothing leaves the process
+	"slow.example:443", "a.b.c.d.e.f.example:1", "localhost:80", "256.1.1.1:80", "xn--:80", ".:80", "..:80", "-:80", "1.2.3:80", "0x7f.1:80"}
 
 func (g *Gen) C2S(transportBias int) *pb.ClientToStation {
 	c := &pb.ClientToStation{
